@@ -23,7 +23,7 @@ func init() {
 
 type healCase struct {
 	Idx      int    `json:"idx"`
-	Scenario string `json:"scenario"` // one-lost | all-lost | repeated | server-restart | hot-restart-then-old-closes | manager-close | f3-directed
+	Scenario string `json:"scenario"` // one-lost | all-lost | repeated | server-restart | hot-restart-then-old-closes | manager-close | f3-directed | loss-then-hot-restart | close-during-rebuild
 	Pools    int    `json:"pools"`
 	Memfd    bool   `json:"memfd"`
 	Interval int    `json:"rebuild_interval_ms"`
@@ -355,6 +355,94 @@ func runHealCase(c *checkCtx, cs healCase, can *canary) (res healResult) {
 				}
 			}
 		}
+	case "loss-then-hot-restart":
+		// a session is lost and, before its rebuild timer fires, the server hot-restarts: the dead session cannot take part in the
+		// hot restart, so its slot is not replaced; it must still be rebuilt (against the new server) like any other lost session
+		lose(srv.sessionList()[:1])
+		nw, err := startPoolServerAt(path, 2, true)
+		if err != nil {
+			res.inconcl = "new listener: " + err.Error()
+			break
+		}
+		servers = append(servers, nw)
+		if err := srv.ln.HotRestart(78); err != nil {
+			res.inconcl = "HotRestart: " + err.Error()
+			break
+		}
+		sawHot := waitUntil(3*time.Second, func() bool { sm.RLock(); defer sm.RUnlock(); return sm.epoch == 78 })
+		if !sawHot {
+			res.inconcl = "the hot restart event did not reach the manager"
+			break
+		}
+		// an incomplete hot restart (one slot cannot answer) ends by its own timeout (2 s); then the old server exits
+		if !waitUntil(8*time.Second, func() bool { sm.RLock(); defer sm.RUnlock(); return sm.state != hotRestartState }) {
+			res.inconcl = "manager still in hot restart state after 8 s"
+			break
+		}
+		func() {
+			world.Lock()
+			defer world.Unlock()
+			srv.ln.Close()
+			time.Sleep(20 * time.Millisecond)
+			fenceN(3)
+		}()
+		expectHeal("session lost just before a hot restart, old server gone")
+	case "close-during-rebuild":
+		// SessionManager.Close while a watcher is inside a rebuild attempt: when Close has returned, no pool may hold a live
+		// session, nothing may stay connected to the server and GetStream must fail
+		stopCallers()
+		stop = make(chan struct{})
+		atRebuild := make(chan struct{}, 1)
+		release := make(chan struct{})
+		healParkers.Store(sm, func() {
+			select {
+			case atRebuild <- struct{}{}:
+			default:
+			}
+			select {
+			case <-release:
+			case <-time.After(10 * time.Second):
+			}
+		})
+		defer healParkers.Delete(sm)
+		lose(srv.sessionList()[:1])
+		select {
+		case <-atRebuild:
+		case <-time.After(interval + 8*time.Second):
+			res.inconcl = "no rebuild attempt observed"
+			close(release)
+			return
+		}
+		closed := make(chan struct{})
+		go func() { sm.Close(); close(closed) }()
+		smClosed = true
+		time.Sleep(30 * time.Millisecond) // Close is now waiting for the watcher (which is parked just before its dial)
+		close(release)
+		can.reset()
+		select {
+		case <-closed:
+		case <-time.After(15 * time.Second):
+			if can.healthy(200 * time.Millisecond) {
+				violate("SessionManager.Close did not return within 15 s while a rebuild was in flight")
+			} else {
+				res.inconcl = "Close slow, machine overloaded"
+			}
+			return
+		}
+		fenceN(3)
+		for i, p := range sm.pools {
+			if s := p.Session(); s != nil && !s.IsClosed() {
+				violate("after SessionManager.Close returned, pool %d holds a live session (%s): a rebuild that was in flight during Close survived it", i, s.sessionName())
+			}
+		}
+		if st, err := sm.GetStream(); err == nil {
+			violate("GetStream succeeded on a closed SessionManager (stream %d)", st.StreamID())
+		}
+		if !waitUntil(5*time.Second, func() bool { fenceOnce(5 * time.Second); return len(srv.sessionList()) == 0 }) && can.healthy(200*time.Millisecond) {
+			violate("%d server-side session(s) still connected 5 s after SessionManager.Close returned", len(srv.sessionList()))
+		}
+		res.accepted = acceptedTotal()
+		return
 	case "manager-close":
 		stopCallers()
 		stop = make(chan struct{})
@@ -384,17 +472,29 @@ func runHealCase(c *checkCtx, cs healCase, can *canary) (res healResult) {
 
 var healExclusive sync.RWMutex
 
+// healParkers: SessionManager -> function run by that manager's watcher just before a rebuild dials (hook vpSMRebuildBefore)
+var healParkers sync.Map
+
 func checkHeal(c *checkCtx) {
 	c.rule = "scenario list (one session lost, all lost, three losses in a row, server gone and back after 1..3 intervals, hot restart followed by the old " +
-		"server's exit and then a loss, SessionManager.Close, directed F3) x 1..3 pools x file/memfd x rebuild interval 60..200 ms, callers polling " +
+		"server's exit and then a loss, SessionManager.Close, directed F3, a loss followed by a hot restart inside the rebuild interval, SessionManager.Close while a rebuild is in flight) x 1..3 pools x file/memfd x rebuild interval 60..200 ms, callers polling " +
 		"GetStream throughout; non-trivial = at least one loss was injected and callers observed failing calls in between (or, for manager-close, the " +
 		"goroutine/accept census was taken); distinct = distinct (scenario, pools, mapping, interval, bucketed heal time)"
 	c.assume("bounded-progress bound for healing: rebuild interval + 3 s with a healthy canary")
 	c.assume("losses are injected while no caller is inside a stream operation (known finding F2 is C14's subject); callers observe the loss at their next call")
 	can := startCanary()
 	defer can.close()
-	scen := []string{"one-lost", "all-lost", "repeated", "server-restart", "hot-restart-then-old-closes", "manager-close", "f3-directed"}
-	n := c.pick(14, 350)
+	scen := []string{"one-lost", "all-lost", "repeated", "server-restart", "hot-restart-then-old-closes", "manager-close", "f3-directed",
+		"loss-then-hot-restart", "close-during-rebuild"}
+	k := newCtl("heal", c.seed)
+	k.on(vpSMRebuildBefore, func(obj interface{}, n int64) {
+		if f, ok := healParkers.Load(obj); ok {
+			f.(func())()
+		}
+	})
+	k.install()
+	defer uninstallCtl()
+	n := c.pick(18, 360)
 	var mu sync.Mutex
 	var wg sync.WaitGroup
 	sem := make(chan struct{}, 3)
@@ -402,6 +502,13 @@ func checkHeal(c *checkCtx) {
 		rng := caseRand(c.seed, 700000+i)
 		cs := healCase{Idx: i, Scenario: scen[i%len(scen)], Pools: 1 + rng.Intn(3), Memfd: rng.Intn(2) == 0,
 			Interval: []int{60, 100, 200}[rng.Intn(3)], Callers: 2 + rng.Intn(5), Seed: rng.Int63()}
+		if cs.Scenario == "loss-then-hot-restart" {
+			// the hot restart must begin inside the rebuild interval of the lost session, and one slot must be left to carry it
+			cs.Interval = 600
+			if cs.Pools < 2 {
+				cs.Pools = 2
+			}
+		}
 		wg.Add(1)
 		sem <- struct{}{}
 		go func(cs healCase) {
